@@ -11,11 +11,18 @@ trap 'git -C /repo worktree remove --force $WT >/dev/null 2>&1' EXIT
 cd $WT
 git apply "$patch" || { echo "VERIFY patch-does-not-apply"; exit 1; }
 ok=1
+# tests of these packages that are wall-clock sensitive and fail intermittently on a loaded machine
+# WITHOUT any change (observed repeatedly on clean HEAD, see DESIGN.md A.9)
+FLAKY='TestStateStore_GC|TestTombstoneGC|TestStore_IntegrationWithEventPublisher_|Heartbeat|TestAgent_CheckCriticalTime|TestAgentAntiEntropy_|TestServer_DeltaAggregatedResources|TestPeeringBackend_ForwardToLeader|TestConnectCA_ConfigurationSet_PersistsRoots'
 for p in "$@"; do
-  if go test -vet=off -count=1 ./$p/ > $WT.t.log 2>&1; then echo "VERIFY existing-tests-pass $p"; else
-    # one retry: several packages have load-sensitive tests
-    if go test -vet=off -count=1 ./$p/ > $WT.t.log 2>&1; then echo "VERIFY existing-tests-pass(2nd try) $p"; else echo "VERIFY existing-tests-FAIL $p: $(grep -E '^--- FAIL' $WT.t.log | head -3 | tr '\n' ' ')"; ok=0; fi
-  fi
+  res=FAIL
+  for try in 1 2 3; do
+    if go test -vet=off -count=1 ./$p/ > $WT.t.log 2>&1; then res="pass(try $try)"; break; fi
+    bad=$(grep -E '^--- FAIL' $WT.t.log | grep -vE "$FLAKY" | head -3 | tr '\n' ' ')
+    if [ -z "$bad" ] && grep -qE '^--- FAIL' $WT.t.log; then res="pass-modulo-load-flakes(try $try: $(grep -E '^--- FAIL' $WT.t.log | awk '{print $3}' | head -3 | tr '\n' ' '))"; break; fi
+    res="FAIL: $bad$(grep -E 'panic:|build failed' $WT.t.log | head -1)"
+  done
+  case "$res" in FAIL*) echo "VERIFY existing-tests-$res $p"; ok=0;; *) echo "VERIFY existing-tests-$res $p";; esac
 done
 ext=${demo##*.}
 cp "$demo" ./$dpkg/zz_seed_demo_test.go
